@@ -15,6 +15,10 @@ from fractions import Fraction
 
 import z3
 
+# z3's Python pretty-printer dominates run time when terms are used in memo keys: use the C-level s-expression printer
+z3.ExprRef.__str__ = lambda self: self.sexpr()
+z3.ExprRef.__repr__ = lambda self: self.sexpr()
+
 Ref = z3.DeclareSort("Ref")
 Name = z3.DeclareSort("Name")
 R = z3.RealSort()
